@@ -286,6 +286,8 @@ func (e *Env) Apply(op *Op) []string {
 
 func (e *Env) applyCore(op *Op) []string {
 	switch op.Kind {
+	case "cli":
+		return e.applyCli(op)
 	case "case":
 		return []string{fmt.Sprintf("case %d", op.Case)}
 	case "create":
